@@ -69,6 +69,12 @@ def stepOp (s : St) (op obs : String) : Except String St := do
     match C01.checkProgram prog (valsD s) s.ctrs obs (lenient := true) with
     | .ok (sh, c, m) => return { s with vals := s.vals ++ [some sh], ctrs := s.ctrs ++ [c], models := s.models ++ [m] }
     | .error e => throw e
+  | ["xconc"] =>
+    -- C14 (local executor): the tasks of an Exclusive operator have the executor to themselves
+    if !obs.startsWith "xconc=" then throw s!"bad xconc observation {obs}"
+    if toNat! (obs.drop 6).toString > 1 then
+      throw s!"calls of an Exclusive operator were in progress in {(obs.drop 6).toString} tasks at once on the local executor"
+    return s
   | ["kill"] =>
     -- a machine is lost (C02 decides recovery in general; here: a Discard that meets the dead machine must still leave the
     -- discarded tasks recomputable)
